@@ -1,13 +1,9 @@
 //! property C17: host data converts to CEL values without loss of structure (one harness per Serializer method group)
 use crate::sym::{any, assume};
-use cel_interpreter::objects::{Key, Map};
 use cel_interpreter::{to_value, Value};
 use serde::Serialize;
-use std::collections::BTreeMap;
 use std::mem::forget;
 
-#[cfg(kani)]
-use crate::conv::{fixed_random_state, stub_format};
 
 #[cfg_attr(kani, kani::proof)]
 #[cfg_attr(kani, kani::unwind(6))]
@@ -52,17 +48,6 @@ pub fn c17_bool_and_unit() {
     assert!(matches!(to_value(b), Ok(Value::Bool(x)) if x == b));
     assert!(matches!(to_value(()), Ok(Value::Null)));
 }
-#[cfg_attr(kani, kani::proof)]
-#[cfg_attr(kani, kani::unwind(6))]
-pub fn c17_option_is_null_or_the_value() {
-    let b: bool = any();
-    let o: Option<i32> = if b { Some(any()) } else { None };
-    match (o, to_value(o)) {
-        (None, Ok(Value::Null)) => {}
-        (Some(v), Ok(Value::Int(x))) => assert!(x == v as i64),
-        _ => assert!(false),
-    }
-}
 #[derive(Serialize)]
 struct Newtype(u16);
 #[derive(Serialize)]
@@ -99,156 +84,5 @@ pub fn c17_tuples_and_newtypes() {
         }
         _ => assert!(false),
     }
-    forget(r);
-}
-
-#[derive(Serialize)]
-struct S {
-    a: i32,
-    b: bool,
-}
-#[derive(Serialize)]
-enum E {
-    Unit,
-    Newtype(i32),
-    Tuple(i32, bool),
-    Struct { a: u8 },
-}
-fn get<'a>(m: &'a Map, k: &str) -> Option<&'a Value> {
-    m.map.get(&Key::String(std::sync::Arc::new(k.to_string())))
-}
-
-/// structs become maps keyed by field name; data-carrying variants become single-entry maps keyed by the variant name
-#[cfg_attr(kani, kani::proof)]
-#[cfg_attr(kani, kani::unwind(12))]
-#[cfg_attr(kani, kani::stub(std::collections::hash_map::RandomState::new, fixed_random_state))]
-#[cfg_attr(kani, kani::stub(alloc::fmt::format, stub_format))]
-pub fn c17_struct_becomes_map() {
-    let a: i32 = any();
-    let b: bool = any();
-    let r = to_value(S { a, b });
-    match &r {
-        Ok(Value::Map(m)) => {
-            assert!(m.map.len() == 2);
-            assert!(matches!(get(m, "a"), Some(Value::Int(x)) if *x == a as i64));
-            assert!(matches!(get(m, "b"), Some(Value::Bool(x)) if *x == b));
-        }
-        _ => assert!(false),
-    }
-    forget(r);
-}
-#[cfg_attr(kani, kani::proof)]
-#[cfg_attr(kani, kani::unwind(12))]
-#[cfg_attr(kani, kani::stub(std::collections::hash_map::RandomState::new, fixed_random_state))]
-#[cfg_attr(kani, kani::stub(alloc::fmt::format, stub_format))]
-pub fn c17_enum_variants() {
-    let a: i32 = any();
-    let r = to_value(E::Unit);
-    assert!(matches!(&r, Ok(Value::String(s)) if s.as_str() == "Unit"));
-    forget(r);
-    let r = to_value(E::Newtype(a));
-    match &r {
-        Ok(Value::Map(m)) => {
-            assert!(m.map.len() == 1);
-            assert!(matches!(get(m, "Newtype"), Some(Value::Int(x)) if *x == a as i64));
-        }
-        _ => assert!(false),
-    }
-    forget(r);
-}
-#[cfg_attr(kani, kani::proof)]
-#[cfg_attr(kani, kani::unwind(12))]
-#[cfg_attr(kani, kani::stub(std::collections::hash_map::RandomState::new, fixed_random_state))]
-#[cfg_attr(kani, kani::stub(alloc::fmt::format, stub_format))]
-pub fn c17_enum_tuple_and_struct_variants() {
-    let a: i32 = any();
-    let b: bool = any();
-    let u: u8 = any();
-    let r = to_value(E::Tuple(a, b));
-    match &r {
-        Ok(Value::Map(m)) => {
-            assert!(m.map.len() == 1);
-            match get(m, "Tuple") {
-                Some(Value::List(l)) => {
-                    assert!(l.len() == 2);
-                    assert!(matches!(l[0], Value::Int(x) if x == a as i64));
-                    assert!(matches!(l[1], Value::Bool(x) if x == b));
-                }
-                _ => assert!(false),
-            }
-        }
-        _ => assert!(false),
-    }
-    forget(r);
-    let r = to_value(E::Struct { a: u });
-    match &r {
-        Ok(Value::Map(m)) => {
-            assert!(m.map.len() == 1);
-            match get(m, "Struct") {
-                Some(Value::Map(inner)) => assert!(matches!(get(inner, "a"), Some(Value::UInt(x)) if *x == u as u64)),
-                _ => assert!(false),
-            }
-        }
-        _ => assert!(false),
-    }
-    forget(r);
-}
-/// map keys: integers, bool and strings are accepted (int -> Key::Int, unsigned -> Key::Uint); other kinds are errors, never panics
-#[cfg_attr(kani, kani::proof)]
-#[cfg_attr(kani, kani::unwind(12))]
-#[cfg_attr(kani, kani::stub(std::collections::hash_map::RandomState::new, fixed_random_state))]
-#[cfg_attr(kani, kani::stub(alloc::fmt::format, stub_format))]
-pub fn c17_map_keys() {
-    let k: i32 = any();
-    let u: u16 = any();
-    let v: bool = any();
-    let mut m1 = BTreeMap::new();
-    m1.insert(k, v);
-    let r = to_value(m1);
-    match &r {
-        Ok(Value::Map(m)) => {
-            assert!(m.map.len() == 1);
-            assert!(matches!(m.map.get(&Key::Int(k as i64)), Some(Value::Bool(x)) if *x == v));
-        }
-        _ => assert!(false),
-    }
-    forget(r);
-    let mut m2 = BTreeMap::new();
-    m2.insert(u, v);
-    let r = to_value(m2);
-    match &r {
-        Ok(Value::Map(m)) => assert!(matches!(m.map.get(&Key::Uint(u as u64)), Some(Value::Bool(x)) if *x == v)),
-        _ => assert!(false),
-    }
-    forget(r);
-    let mut m3 = BTreeMap::new();
-    m3.insert(v, k);
-    let r = to_value(m3);
-    match &r {
-        Ok(Value::Map(m)) => assert!(matches!(m.map.get(&Key::Bool(v)), Some(Value::Int(x)) if *x == k as i64)),
-        _ => assert!(false),
-    }
-    forget(r);
-}
-#[cfg_attr(kani, kani::proof)]
-#[cfg_attr(kani, kani::unwind(12))]
-#[cfg_attr(kani, kani::stub(std::collections::hash_map::RandomState::new, fixed_random_state))]
-#[cfg_attr(kani, kani::stub(alloc::fmt::format, stub_format))]
-pub fn c17_unsupported_map_keys_are_errors() {
-    let k: i32 = any();
-    let mut m1 = BTreeMap::new();
-    m1.insert((k, k), true);
-    let r = to_value(m1);
-    assert!(r.is_err());
-    forget(r);
-    let mut m2: BTreeMap<Option<i32>, bool> = BTreeMap::new();
-    m2.insert(None, true);
-    let r = to_value(m2);
-    assert!(r.is_err());
-    forget(r);
-    let mut m3: BTreeMap<(), bool> = BTreeMap::new();
-    m3.insert((), false);
-    let r = to_value(m3);
-    assert!(r.is_err());
     forget(r);
 }
